@@ -33,6 +33,17 @@ THEOREMS = ["AurelVerif.C04." + t for t in (
     "st_Ricci_down4_dflt_symm", "st_Ricci_down4_Tdown4_symm", "Einsteindown4_symm",
     "st_Gamma_udd4_spec", "st_Gamma_udd4_symm", "st_Gamma_udd4_is_christoffel", "christoffel3p1_is_christoffel",
     "dmetric3p1_is_derivative", "gammaup3_lowers_back")]
+MODULE_B = "AurelVerif.Props.C04b"      # extension round: Gauss / Codazzi / Mainardi ARE the Riemann tensor of the assembled metric
+THEOREMS_B = ["AurelVerif.C04." + t for t in (
+    "gauss_offshell", "codazzi_offshell", "mainardi_onshell", "mainardi_algebraic", "mainardi_algebraic_iff",
+    "riemann4_is_populate",
+    "riemannDown_symmetries", "riem4_symmetries", "gup3p1_is_inverse", "gup3p1_contraction", "christoffel1_normal",
+    "kinematic_lie_form", "ddmetric3p1_is_second_derivative", "ddtgam_is_derivative", "ricci_of_einstein",
+    "riemannDown_is_lowered_Riem", "riem4_is_lowered_Riem",
+    "st_Riemann_down4_gauss", "st_Riemann_down4_codazzi", "st_Riemann_down4_is_riemann_matter",
+    "st_Riemann_down4_is_riemann_vacuum", "st_Riemann_down4_is_riemann_matter_noshift",
+    "st_Riemann_down4_is_riemann_vacuum_noshift", "st_Ricci_down3_of_einstein", "s_Riemann_down3_is_textbook",
+    "leviCivita_of_code")]
 NEEDED = ["st_Gamma_udd4", "st_Riemann_down4", "st_Riemann_uddd4", "st_Riemann_uudd4", "Kretschmann",
           "maths_populate_4Riemann", "st_Ricci_down4", "st_Ricci_down3", "st_RicciS", "Einsteindown4",
           "s_to_st", "s_covd_dd", "Ttrace", "gdown4", "gup4", "gdet", "gammadet", "gammaup3"]
@@ -40,6 +51,10 @@ LEAN_FILES = ["AurelVerif/Props/C04.lean", "AurelVerif/Spec/Curvature.lean", "Au
               "AurelVerif/Lemmas/C04Contract.lean", "AurelVerif/Lemmas/C04Blocks.lean",
               "AurelVerif/Lemmas/C04RiemannMatter.lean", "AurelVerif/Lemmas/C04RiemannVacuum.lean",
               "AurelVerif/Lemmas/C04Gamma.lean", "AurelVerif/Lemmas/C04GammaCode.lean", "AurelVerif/Lemmas/C04Gup.lean",
+              "AurelVerif/Props/C04b.lean", "AurelVerif/Spec/Riemann4Jet.lean", "AurelVerif/Lemmas/C04Jet2.lean",
+              "AurelVerif/Lemmas/C04Jet2Deriv.lean", "AurelVerif/Lemmas/C04Gauss.lean", "AurelVerif/Lemmas/C04Codazzi.lean",
+              "AurelVerif/Lemmas/C04Mainardi.lean", "AurelVerif/Lemmas/C04RiemSym.lean", "AurelVerif/Lemmas/C04RiemLower.lean",
+              "AurelVerif/Lemmas/C04RiemLink.lean", "AurelVerif/Lemmas/C04CurvCode.lean",
               "AurelVerif/Gen/CoreCurv.lean", "AurelVerif/Gen/CoreBig_st_Riemann_down4.lean",
               "AurelVerif/Gen/CoreBig_st_Riemann_uddd4.lean", "AurelVerif/Gen/CoreBig_st_Riemann_uudd4.lean",
               "AurelVerif/Gen/CoreBig_Kretschmann.lean", "AurelVerif/Gen/CoreBig_maths_populate_4Riemann.lean"]
@@ -337,20 +352,27 @@ def search(ctx, only=None):
 
 def run(ctx):
     ctx.trusted += corecheck.TRUSTED
-    ctx.trusted += ["textbook 3+1 theory: the Gauss, Codazzi and Mainardi projections (Shibata 2.38, 2.41, 2.56) of the Riemann "
-                    "tensor of the 4-metric, and Einstein's equations for the matter term of the Mainardi relation (cited, not proven)"]
+    ctx.trusted += ["that the cached st_Ricci_down3 entering R_itjt is the spatial Ricci tensor of the spacetime metric, i.e. that the "
+                    "data solve Einstein's equations with the supplied Tdown4 / vacuum flag (hypothesis hRic of "
+                    "st_Riemann_down4_is_riemann_*; Gauss and Codazzi are proven off shell, Props/C04b.lean)"]
     ctx.assumptions += [
         "Layer A theorems are exact for every field and every difference operator; Layer B (st_Gamma_udd4 = Christoffel symbols "
         "of the assembled metric) assumes the product rule, the kinematic relation for d_t gamma_ij, a torsion-free metric-compatible "
         "s_Gamma_udd3, gamma^-1, alpha != 0, char != 2 — the finite-difference operators satisfy the differential ones only up to truncation error",
-        "NOT proven: that the Gauss/Codazzi/Mainardi expressions equal the Riemann tensor of the 4-metric; convergence order; round-off — "
-        "watched by the sympy/numpy oracle on three families of metrics (two resolutions, order in the ratio)"]
+        "Layer B, extension (Props/C04b.lean): Gauss and Codazzi blocks = components R_ijkl, R_ijkt of the textbook Riemann tensor "
+        "([LL] 92.1 = lowered first-principles definition) of the assembled metric as off-shell identities; R_itjt and hence all 256 "
+        "components under the hypothesis that st_Ricci_down3 is the spatial Ricci tensor of that metric; hypotheses: Jet.LeviCivita, "
+        "commuting second derivatives, d_i d_t gamma_jk = Leibniz derivative of the kinematic relation, s_Riemann_down3 = textbook "
+        "3-Riemann tensor (C05 theorem); second time derivatives are free symbols",
+        "NOT proven: convergence order; round-off — watched by the sympy/numpy oracle on three families of metrics "
+        "(two resolutions, order in the ratio)"]
     r = corecheck.regen_and_validate(ctx, NEEDED)
     if r is not None and not ctx.broken():
         ctx.prove(MODULE, THEOREMS, timeout=2400)
+        ctx.prove(MODULE_B, THEOREMS_B, timeout=2400)
         ctx.forbidden_scan(LEAN_FILES)
         if ctx.tier == "thorough":
-            ctx.leanchecker([MODULE])
+            ctx.leanchecker([MODULE, MODULE_B])
     with np.errstate(all="ignore"):
         search(ctx)
         if r is not None:
@@ -391,9 +413,19 @@ MANIFEST = {
             "st_Ricci_down4 and st_Ricci_down3 alternatives (+ their coherence), st_RicciS, Einsteindown4, Kretschmann are the stated "
             "contractions; Ricci/Einstein symmetric; st_Gamma_udd4 equals its six 3+1 pieces and is symmetric below. Consistency proof "
             "(continuum hypotheses stated): all 64 components of st_Gamma_udd4 are the Christoffel symbols of the assembled 4-metric. "
+            "Consistency proof, curvature (Props/C04b.lean; jets of lapse, shift, metric, K as symbols of an arbitrary field, d_t gamma "
+            "from the kinematic relation): the spatial block R_ijkl of the textbook Riemann tensor of the assembled 4-metric equals "
+            "3R_ijkl + K_ik K_jl - K_il K_jk (Gauss, off shell) and R_ijkt equals beta^l R_ijkl + alpha(D_j K_ik - D_i K_jk) (Codazzi, off "
+            "shell) - for the generated code: these components of all 4 alternatives of st_Riemann_down4, with the code's own "
+            "s_Riemann_down3 (textbook form: C05); R_itjt (Mainardi as coded) and therefore ALL 256 components of each alternative equal "
+            "the textbook tensor when (and, componentwise, only when) the cached st_Ricci_down3 (0 with vacuum=True) is the spatial Ricci tensor of that metric, "
+            "which Einstein's equations with the supplied Tdown4 imply (trace reversal proven); the textbook covariant formula is proven "
+            "equal to the lowered first-principles R^a_bcd of Spec/Jet4.lean and to have the Riemann symmetries. "
             "Metric/inverse/determinant: C08.",
-    "note": "PARTIAL: no theorem says that the Gauss-Codazzi-Mainardi expressions are the Riemann tensor of the 4-metric (textbook, "
-            "trusted) nor anything about convergence order or round-off; these are covered only by the numerical oracle (random 3+1 metric "
+    "note": "PARTIAL: the curvature theorems are consistency statements (product rule, commuting derivatives, metric-compatible "
+            "connection hold for the finite-difference operators only up to truncation error); R_itjt is proven only on shell (hypothesis: "
+            "st_Ricci_down3 is the spatial Ricci tensor of the metric; the evolution-equation form with d_t K_ij is not proven, the code "
+            "does not use it); nothing is proven about convergence order or round-off; these are covered only by the numerical oracle (random 3+1 metric "
             "with time-dependent lapse, shift, non-diagonal metric and supplied Tdown4; Kasner in wavy coordinates and Kerr-Schild with "
             "vacuum=True; all eleven observe_at keys, error small and ratio ~ 2^p). Trusted: Lean kernel + 3 standard axioms; the "
             "symbolic-execution translator (validated each run); numpy semantics; exact arithmetic.",
